@@ -30,7 +30,7 @@ def read_elem(t, view, i):
     raise ValueError("no elements")
 
 
-def one_op(t, view, k, op, out, prefix):
+def one_op(t, view, k, op, out, prefix, forks=None):
     """run one op; returns the status string that was appended"""
     if True:
         o = op[0]
@@ -62,6 +62,15 @@ def one_op(t, view, k, op, out, prefix):
             out.append('%d.%s=%s' % (k, prefix, status(lambda: to_val(t, view, 'roiter'))))
         elif o == 'nav':
             out.append('%d.%s=%s' % (k, prefix, status(lambda: hexr(view.get_backing().getter(int(op[1]))))))
+        elif o == 'fork':
+            forks.append(type(view).view_from_backing(view.get_backing()))
+            out.append('%d.%s=ok:%d' % (k, prefix, len(forks) - 1))
+        elif o == 'fread':
+            if forks:
+                f = forks[int(op[1]) % len(forks)]
+                out.append('%d.%s=%s' % (k, prefix, status(lambda: to_val(t, f))))
+            else:
+                out.append('%d.%s=err' % (k, prefix))
         elif o == 'vbl':
             out.append('%d.%s=%s' % (k, prefix, status(lambda: view.value_byte_length())))
         elif o == 'len':
@@ -81,8 +90,9 @@ def one_op(t, view, k, op, out, prefix):
 
 
 def run_ops(t, view, ops, out, prefix):
+    forks = []
     for k, op in enumerate(ops):
-        one_op(t, view, k, op, out, prefix)
+        one_op(t, view, k, op, out, prefix, forks)
 
 
 def is_atomic_mut(op):
@@ -108,12 +118,13 @@ def run_partial(t, v, positions, ops):
     # the same ops on the complete tree, in lockstep: a mutation (other than a slice assignment) that fails on
     # the partial tree is not applied to the complete one either
     z = T.view_from_backing(x.get_backing())
+    fy, fz = [], []
     for k, op in enumerate(ops):
-        r = one_op(t, y, k, op, out, 'p')
+        r = one_op(t, y, k, op, out, 'p', fy)
         if is_atomic_mut(op) and not r.startswith('ok'):
             out.append('%d.c=skip' % k)
         else:
-            one_op(t, z, k, op, out, 'c')
+            one_op(t, z, k, op, out, 'c', fz)
     return ';'.join(out)
 
 
